@@ -194,7 +194,18 @@ func rtIntRange(ex *Exec, fn *ssa.Function, args []Value) (Value, *Panic) {
 	if hi < lo {
 		ex.endPath("empty range")
 	}
-	i := ex.choose(int(hi-lo+1), name)
+	var i int
+	if ex.concrete != nil {
+		// replay values are the range values themselves (as the native runtime reads them)
+		if v, ok := ex.concrete[name]; ok {
+			i = int(v.Int64() - lo)
+			if i < 0 || int64(i) > hi-lo {
+				ex.endPath("replay value outside IntRange")
+			}
+		}
+	} else {
+		i = ex.choose(int(hi-lo+1), name)
+	}
 	ex.recordChoice(name, uint64(lo+int64(i)))
 	return ex.ts.Const(64, uint64(lo+int64(i))), nil
 }
